@@ -20,6 +20,9 @@ shared ProxyNumpy -- symtrace.py and emit_coq.py are unchanged):
                             permutation `perm_i : Z` (decimal digit code, e.g. 102 for [1, 0, 2]); the first
                             use as an index forks over the M! codes (`Z.eqb perm_i code`), anything
                             else is the leaf `Err OtherError` (oracle contract: argsort returns a permutation)
+  module-level state        the call must leave every module-level binding / container of pydrex.stats as it was
+                            (checked around each traced call; the explicit-seed traces pass an `int` subclass as the
+                            seed so that code reserved for integer seeds is executed) -- else fail closed
   rng.random(n)             ORACLE: np.random.default_rng must receive the caller's `seed` object (or
                             None when omitted); the i-th call `random(k)` must have k == n_samples and no
                             other argument (a dtype= argument fails closed) and returns row i of the
@@ -345,8 +348,26 @@ class StatsTranslation(Translation):
         return _build_tree(paths)
 
 
-class _Seed:
-    """stands for the caller's `seed` argument (only its identity is used)"""
+class _Seed(int):
+    """stands for the caller's `seed` argument: an `int` (so that code paths reserved for integer seeds are
+    traced) whose IDENTITY is what default_rng must receive"""
+
+
+def _module_state(mod):
+    """identity of every module-level binding + a shallow digest of module-level containers: the traced function
+    must leave them alone (a pure model cannot describe a function that keeps state between calls)"""
+    out = {}
+    for k, v in vars(mod).items():
+        if k.startswith("__") and k.endswith("__"):
+            continue
+        d = id(v)
+        if isinstance(v, (dict, list, set)):
+            try:
+                d = (id(v), len(v), tuple(sorted(map(id, v.values() if isinstance(v, dict) else v))))
+            except Exception:  # noqa: BLE001
+                pass
+        out[k] = d
+    return out
 
 
 def translations():
@@ -374,11 +395,18 @@ def translations():
 
     def mk_full(N, M, n, defaults):
         def resample(orientations, fractions, u, *perms):
-            seed = None if defaults else _Seed()
+            seed = None if defaults else _Seed(20260929)
             o, f = orientations.view(RArr), fractions.view(RArr)
             proxy.reset(fractions=f, u=u.view(RArr) if u is not None else None, seed=seed)
             try:
+                before = _module_state(stats)
                 out = real(o, f) if defaults else real(o, f, n, seed)
+                after = _module_state(stats)
+                if before != after:
+                    changed = sorted(k for k in set(before) | set(after) if before.get(k) != after.get(k))
+                    raise TranslatorUnsupported(
+                        "resample_orientations changes module-level state of pydrex.stats (" + ", ".join(changed) +
+                        "): its result may depend on earlier calls, which the pure model Model_stats.resample cannot express")
                 if not (isinstance(out, tuple) and len(out) == 2):
                     raise TranslatorUnsupported("resample_orientations does not return two values")
                 nn = M if defaults else n
@@ -395,7 +423,7 @@ def translations():
 
     def mk_neg(N, M):
         def resample(orientations, fractions):
-            seed = _Seed()
+            seed = _Seed(20260929)
             o, f = orientations.view(RArr), fractions.view(RArr)
             proxy.reset(fractions=f, u=None, seed=seed)
             try:
